@@ -59,7 +59,20 @@ pub struct FaultPlan {
     /// fail the k-th mutating call (1-based); 0 = never
     pub fail_at: u64,
     pub and_later: bool,
+    /// which io::ErrorKind the injected errors carry (index into FAULT_KINDS)
+    pub kind: u8,
 }
+
+/// Error kinds a terminal write can plausibly fail with; none of them may be treated as success.
+pub const FAULT_KINDS: [io::ErrorKind; 7] = [
+    io::ErrorKind::Other,
+    io::ErrorKind::BrokenPipe,
+    io::ErrorKind::Interrupted,
+    io::ErrorKind::WouldBlock,
+    io::ErrorKind::TimedOut,
+    io::ErrorKind::WriteZero,
+    io::ErrorKind::UnexpectedEof,
+];
 
 pub type ExtraFn = Arc<dyn Fn() -> Vec<u64> + Send + Sync>;
 
@@ -200,7 +213,8 @@ impl SpyTerm {
         }
         if fail {
             st.faults_injected += 1;
-            return Err(io::Error::new(io::ErrorKind::Other, "injected terminal fault"));
+            let kind = FAULT_KINDS[st.fault.kind as usize % FAULT_KINDS.len()];
+            return Err(io::Error::new(kind, "injected terminal fault"));
         }
         match kind {
             CallKind::Up => {
